@@ -66,8 +66,19 @@ def d1_copies(ctx, ic, ii):
     loops = [n for n in own_nodes(ic.node) if isinstance(n, ast.For) and isinstance(n.iter, ast.Call)
              and any(t is ii for k, t in ctx.R.resolve_call(n.iter, ic) if k == 'repo')]
     ok = False
+    a = b = None
     if loops and isinstance(loops[0].target, ast.Tuple) and len(loops[0].target.elts) == 2:
         a, b = [norm(x) for x in loops[0].target.elts]
+    elif loops and isinstance(loops[0].target, ast.Name):
+        # `for frame in iterindices(...)`: the pair is unpacked (or subscripted) in the body
+        t = loops[0].target.id
+        for n in ast.walk(loops[0]):
+            if isinstance(n, ast.Assign) and isinstance(n.value, ast.Name) and n.value.id == t and \
+                    isinstance(n.targets[0], ast.Tuple) and len(n.targets[0].elts) == 2:
+                a, b = [norm(x) for x in n.targets[0].elts]
+        if a is None:
+            a, b = f'{t}[0]', f'{t}[1]'
+    if a is not None:
         for y in ys:
             for s in ast.walk(y.value) if y.value is not None else []:
                 if isinstance(s, ast.Subscript) and isinstance(s.value, ast.Name) and s.value.id in seeds and \
@@ -353,7 +364,10 @@ def d5_frame_recurrence(ctx, ii, ff):
                 for nm, el in zip(('NFRAMES', 'COVERED', 'REMAINDER'), elts):
                     if isinstance(el, ast.Name):
                         env[el.id] = P.atom(nm)
-                if not elts:
+                if not elts and isinstance(tg, ast.Name):
+                    for i_, nm in enumerate(('NFRAMES', 'COVERED', 'REMAINDER')):
+                        env[f'{tg.id}[{i_}]'] = P.atom(nm)
+                elif not elts:
                     raise P.Unsupported('fit_frames result is not unpacked')
                 continue
             P.exec_block([st], env, lambda *a: (_ for _ in ()).throw(P.Unsupported('yield before the loop')), on_if=on_if)
